@@ -12,6 +12,8 @@ CONSTANTS
   CertKinds <- AllCerts
   AltSet = {0, 1, 2}
   InitStates <- InitOne
+  CallOK <- AnyCall
+  EnvOK <- AnyEnv
   FixNegRA = TRUE
   Mut = "none"
 INVARIANTS P1_NoFalseSuccess P2_TypedFailures P3_FinalizeOnce P4_PollSpacing P5_StopOnCancel P6_CertAfterValid P7_LastObserved P8_ChainLimits P9_PollExactlyWhileNotFinal
